@@ -100,3 +100,24 @@ def nativize_pathlib():
         "parts", "parent", "parents", "name", "suffix", "stem", "anchor", "_parts_normcase", "__reduce__", "is_absolute",
     ]
     nativize(pathlib.PurePath, names)
+
+
+def disable_callee_contract_enforcement():
+    """CrossHair looks up (and would enforce) PEP316 contracts of *every function called* from traced
+    code and replaces every constructor call by a Python-level __new__/__init__ pair.  No callee in
+    these harnesses carries a contract, so this is pure overhead (measured 4-10x).  Turn it off for
+    all callers; the top-level harness function's own pre/post are unaffected."""
+    if os.environ.get("VF_KEEP_ENFORCEMENT"):
+        return
+    try:
+        from crosshair import enforce
+    except Exception:  # pragma: no cover
+        return
+
+    def wants_codeobj(self, codeobj):
+        return codeobj.co_name == "_crosshair_with_enforcement"
+
+    enforce.EnforcedConditions.wants_codeobj = wants_codeobj
+
+
+disable_callee_contract_enforcement()
